@@ -16,6 +16,6 @@ META.update({
 
 def instances(tier):
     out = []
-    for b in hist.BASES:
+    for b in hist.EDIT_BASES:
         out.append(Instance("C15", "c14:h_rejected", dict(base=b, always_reports=(tier == "thorough")), name="H/%s" % b, cover=["rejected"], max_paths=30000, weight=10, time_limit=2500))
     return out, META
